@@ -273,7 +273,18 @@ impl Runtime {
 
             let evt = self.emitter().clone();
             let cache = self.cache.clone();
+            let rt = self.clone();
             self.emitter().on_tick(move |_| {
+                // processes that only wait in the store (after a restart, or dropped from the cache)
+                // have timeouts too: bring them back while there is room
+                cache
+                    .restore(&rt, |proc| {
+                        if proc.state().is_none() {
+                            proc.start();
+                        }
+                    })
+                    .unwrap_or_else(|err| error!("scher.initialize tick restore={}", err));
+
                 // do the process tick works
                 for proc in cache.procs().iter() {
                     if proc.state().is_running() {
